@@ -1058,6 +1058,31 @@ private:
 public:
   bool isSymmetric() const { return issymmetric_; }
 
+#ifdef BIOPP_BPP_CORE_VERIF
+  /**
+   * @brief Verification accessors (compiled only with -DBIOPP_BPP_CORE_VERIF).
+   *
+   * verifCdiv forwards to the private complex division helper, which is otherwise
+   * reachable from hqr2 only; verifSetSpectrum overwrites the eigenvalue lists so
+   * that the assembly of D by getD() can be observed on prescribed (d, e).
+   */
+  void verifCdiv(Real xr, Real xi, Real yr, Real yi, Real& outr, Real& outi)
+  {
+    cdiv(xr, xi, yr, yi);
+    outr = cdivr;
+    outi = cdivi;
+  }
+
+  void verifSetSpectrum(const std::vector<Real>& d, const std::vector<Real>& e)
+  {
+    for (size_t i = 0; i < n_ && i < d.size() && i < e.size(); i++)
+    {
+      d_[i] = d[i];
+      e_[i] = e[i];
+    }
+  }
+#endif
+
 
   /**
    * @brief Check for symmetry, then construct the eigenvalue decomposition
